@@ -41,7 +41,7 @@ Definition tk_get_info : list stm :=
   [SLoop [SEv (Call "stop_requested"); SIf [SExit] []; SIf [SEv (Acq "store"); SEv (Rd "store_len"); SEv (Rel "store"); SEv (Acq "collection"); SEv (Rd "collection"); SEv (Rel "collection")] []]].
 
 Definition tk_run_mp : list stm :=
-  [STry [SEv (Call "pool_enter"); SLoop [SEv (Call "submit"); SEv (Rd "total_jobs"); SEv (Wr "total_jobs")]; SEv (Call "info_start"); SEv (Call "results_start"); STry [SEv (Call "as_completed"); SLoop [SEv (Call "future_result"); SEv (Call "stats_update"); SEv (Rd "jobs_completed"); SEv (Wr "jobs_completed")]] [("concurrent.futures.process.BrokenProcessPool", [SRaise "FileSearchException"])] [] []; SLoop [SIf [] []]; SEv (Call "results_stop"); SEv (Call "info_stop"); SEv (Rd "stats_results"); SEv (Rd "stats_results"); SEv (Rd "stats_results"); SEv (Call "purge"); SEv (Call "kill_workers"); SEv (Call "pool_exit")] [("concurrent.futures.process.BrokenProcessPool", [SRaise "FileSearchException"])] [] [SEv (Call "results_stop"); SEv (Call "info_stop")]].
+  [STry [SEv (Call "pool_enter"); SLoop [SEv (Call "submit"); SEv (Rd "total_jobs"); SEv (Wr "total_jobs")]; SEv (Call "info_start"); SEv (Call "results_start"); STry [SEv (Call "as_completed"); SLoop [SEv (Call "future_result"); SEv (Call "stats_update"); SEv (Rd "jobs_completed"); SEv (Wr "jobs_completed")]] [("concurrent.futures.process.BrokenProcessPool", [SRaise "FileSearchException"])] [] []; SLoop [SIf [] []]; SEv (Call "results_stop"); SEv (Call "info_stop"); SEv (Rd "stats_results"); SEv (Rd "stats_results"); SEv (Rd "stats_results"); SEv (Call "purge"); SEv (Call "kill_workers"); SEv (Call "pool_exit")] [("concurrent.futures.process.BrokenProcessPool", [SRaise "FileSearchException"])] [] [SEv (Call "store_lock_try_acquire"); SIf [] []; SEv (Call "store_lock_force_release"); SEv (Call "results_stop"); SEv (Call "info_stop")]].
 
 Definition tk_run : list stm :=
   [SEv (Call "stats_reset"); SIf [SExit] []; SIf [SEv (Call "mgr_enter"); SEv (Call "run_mp"); SEv (Call "unproxy"); SEv (Call "mgr_exit")] [SEv (Call "run_single")]; SExit].
